@@ -566,7 +566,7 @@ func (s *system) Close() {
 func master(cfg *harness.Config, rep *harness.Report) {
 	rep.Rule = "deployments: 1-3 real in-process nodes (RPC over loopback, RpcRetries 1) x MaxShardPointCount {1,2} x placement seeds (deterministic shard-uuid streams; the evidence lists the distinct shard->server patterns seen) x {all servers up, server k closed before step j, all servers up but every cached RPC connection broken from step j on}; every history up to the depth over {insert 2, insert 3, (one deployment with 30 points per shard: insert 90,) update 1 existing + 1 unknown, delete 1 existing + 1 unknown, delete all}, each request entering through the next live node in rotation. After every request, through EVERY live node: each id is found exactly once iff stored, with its document; filter search for limit {1,2,100} x offset {0,1} x sort {none, asc, desc}: <= limit, no duplicate, every result a stored point, globally sorted, exact set when limit covers the matches, exactly `limit` results when every shard alone could fill the page; flat search globally ordered by hybrid score; update/delete failure lists = requested ids no shard processed, 'not found' iff every shard answered"
 	rep.Assumptions = []string{"ids unique per collection (the API's precondition)", "the offset heuristic is not claimed exact", "when the user's own routing node is down nothing is claimed (the collection record is unreachable)", "a search with a shard server down may fail as a whole"}
-	p := pool.New(pool.Options{CPUsPerWorker: 2, JobTimeout: 180 * time.Second})
+	p := pool.New(pool.Options{CPUsPerWorker: 2, JobTimeout: 180 * time.Second, NetNS: true})
 	if cfg.Replay != "" {
 		var r seqx.Replay
 		if err := harness.LoadReplay(cfg.Replay, &r); err != nil {
@@ -608,6 +608,7 @@ func master(cfg *harness.Config, rep *harness.Report) {
 	}
 	// several full shards: 90 points at 30 per shard on two nodes
 	specs = append(specs, seqx.Spec{Name: "2nodes/mspc30/90-points", Cfg: cfgT{Nodes: 2, MSPC: 30, Seed: 1, Down: -1}, Starts: [][]any{{opRef{"insert 90"}}}, Alphabet: []any{opRef{"delete 1 existing + 1 unknown"}, opRef{"update 1 existing + 1 unknown"}}, Depth: 1})
+	rep.Set("server_names_fixed_by_network_namespace", p.NetNS())
 	seqx.Explore(cfg, rep, p, specs)
 }
 
